@@ -510,6 +510,8 @@ def gen_array_case(rng, big=None):
     to = rng.choice([0, L - 1, L // 3, rng.randrange(0, L)])
     dtype = rng.choice(["float32", "float64", "int16", "int32"])
     add_nan = rng.random() < 0.65
+    if dtype == "int16" and ns * (nc + 2) >= 32768:           # the encoding must fit the dtype
+        dtype = "int32"
     lo, hi = to, ns - (L - to) - 1                            # valid samples: lo <= s, last one <= hi
     kind = rng.choice(["valid"] * 7 + ["assert", "wrap", "peak_out", "empty"])
     n = rng.randrange(1, 7)
